@@ -1,6 +1,7 @@
 import IrVerif.Drive.Util
 import IrVerif.Model.PassInfra
 import IrVerif.Model.PassFlags
+import IrVerif.Model.PassFlags2
 import IrVerif.Drive.Sort
 import IrVerif.Drive.Passes
 /-! Protocol handler for the C14 models (`passinfra.*`). -/
@@ -291,17 +292,83 @@ def runFlags (j : Json) : Except String Json := do
   match pass.splitOn ":" with
   | ["dce"] =>
     return obj [("flag", toJson (dceFlag m)), ("count", toJson (dceCount m)),
-      ("before", toJson (dceSize m)), ("after", toJson (dceSize (dceModel m)))]
+      ("before", toJson (dceSize m)), ("after", toJson (dceSize (dceModel m))),
+      ("sorted", toJson (sortedModel m)), ("sorted_after", toJson (sortedModel (dceModel m)))]
   | ["lift", a, n] =>
     let la := a == "1"
     let lim := n.toNat?.getD 0
     return obj [("flag", toJson (liftFlag la lim m)), ("count", toJson (liftCntG la lim m.graph)),
-      ("before", toJson (nodesG m.graph)), ("after", toJson (nodesG (liftConstModel la lim m).graph))]
+      ("before", toJson (nodesG m.graph)), ("after", toJson (nodesG (liftConstModel la lim m).graph)),
+      ("sorted", toJson (sortedModel m)), ("sorted_after", toJson (sortedModel (liftConstModel la lim m)))]
   | ["dedup", n] =>
     let lim := n.toNat?.getD 0
     return obj [("flag", toJson (dedupFlag lim m)), ("count", toJson (dedupCntG lim m.graph)),
-      ("before", toJson (initsG m.graph)), ("after", toJson (initsG (dedupModel lim m).graph))]
+      ("before", toJson (initsG m.graph)), ("after", toJson (initsG (dedupModel lim m).graph)),
+      ("sorted", toJson (sortedModel m)), ("sorted_after", toJson (sortedModel (dedupModel lim m))),
+      ("ssa", toJson (IrVerif.Sem.ssaG m.graph))]
   | _ => throw s!"unknown pass {pass}"
+
+open IrVerif.PassFlags IrVerif.Passes IrVerif.Sem in
+/-- deepening round: flag, count, measure before / after, RESULT MODEL and the flag of a second
+    application, for IdentityElimination / CSE / LiftSubgraphInitializers / OutputFix on C05's models -/
+def runFlags2 (j : Json) : Except String Json := do
+  let m ← IrVerif.Drive.Passes.getModel (← j.getObjVal? "model")
+  let pass ← getStr j "pass"
+  let pack (flag : Bool) (count before after : Nat) (out : Model) (flag2 : Bool) (idem : Bool)
+      (extra : List (String × Json)) : Json :=
+    obj ([("flag", toJson flag), ("count", toJson count), ("before", toJson before), ("after", toJson after),
+      ("model", IrVerif.Drive.Passes.modelJ out), ("flag2", toJson flag2), ("idem", toJson idem),
+      ("valid", toJson (validModel m)), ("idnb", toJson (idNoBodies m)), ("sorted", toJson (sortedModel m)),
+      ("sorted_after", toJson (sortedModel out))] ++ extra)
+  let same (a b : Model) : Bool :=
+    toString (IrVerif.Drive.Passes.modelJ a) == toString (IrVerif.Drive.Passes.modelJ b)
+  match pass.splitOn ":" with
+  | ["identity"] =>
+    let out := ieModel m
+    return pack (ieFlag m) (ieCount m) (nodesM m) (nodesM out) out (ieFlag out) (same (ieModel out) out) []
+  | ["cse", n] =>
+    let lim := n.toNat?.getD 0
+    let out := cseModel lim m
+    return pack (cseFlag lim m) (cseCount lim m) m.graph.nodes.length out.graph.nodes.length out
+      (cseFlag lim out) (same (cseModel lim out) out) [("inserted", toJson (cseInserted lim m)),
+        ("stalled", toJson (cseStalled lim m)), ("w_before", toJson (cseW m.graph.nodes)),
+        ("w_after", toJson (cseW out.graph.nodes))]
+  | ["lsi"] =>
+    let out := lsiModel m
+    return pack (lsiFlag m) (lsiCount m) (subInits m) (subInits out) out (lsiFlag out) (same (lsiModel out) out) []
+  | ["ofix"] =>
+    let out := ofixModel m
+    return pack (ofixFlag m) (ofixCount m) (ofixCount m) (ofixCount out) out (ofixFlag out)
+      (same (ofixModel out) out) []
+  | _ => throw s!"unknown pass {pass}"
+
+open IrVerif.PassFlags in
+def parseOpsetGL (j : Json) : Except String OpsetGL := do
+  return ⟨← getStrs j "imports", ← getStrs j "domains"⟩
+
+open IrVerif.PassFlags in
+/-- RemoveUnusedOpsetsPass on its transcription -/
+def runOpsets (j : Json) : Except String Json := do
+  let main ← parseOpsetGL (← j.getObjVal? "main")
+  let funcs ← (← getArr j "funcs").mapM (fun f => do return ((← getStr f "domain"), (← parseOpsetGL f)))
+  let s : OpsetSt := ⟨main, funcs⟩
+  let pf ← getBool j "pf"
+  let r := removeUnusedOpsets pf s
+  let r2 := removeUnusedOpsets pf r.1
+  return obj [("modified", toJson r.2), ("main", strsJ r.1.main.imports),
+    ("funcs", Json.arr (r.1.funcs.map (fun f => strsJ f.2.imports)).toArray),
+    ("before", toJson (opsetSize s)), ("after", toJson (opsetSize r.1)),
+    ("flag2", toJson r2.2), ("idem", toJson (decide (r2.1 = r.1)))]
+
+open IrVerif.PassFlags in
+/-- RemoveUnusedFunctionsPass on its transcription -/
+def runUnusedFn (j : Json) : Except String Json := do
+  let funcs ← (← getArr j "funcs").mapM (fun f => do return ((← getNat f "id"), (← getNats f "calls")))
+  let s : FnSt := ⟨← getNats j "main", funcs⟩
+  let r := removeUnusedFunctions s
+  let r2 := removeUnusedFunctions r.1
+  return obj [("modified", toJson r.2), ("funcs", natsJ (r.1.funcs.map (·.1))),
+    ("flag2", toJson r2.2), ("idem", toJson (decide (r2.1 = r.1)))]
 
 def handle : Handler := fun m j =>
   match m with
@@ -316,6 +383,12 @@ def handle : Handler := fun m j =>
   | "passinfra.dcemgr" => some (runDceMgr j)
   | "passinfra.sortpass" => some (runSortPass j)
   | "passinfra.flags" => some (runFlags j)
+  | "passinfra.flags2" => some (runFlags2 j)
+  | "passinfra.opsets" => some (runOpsets j)
+  | "passinfra.unusedfn" => some (runUnusedFn j)
+  | "passinfra.sorted" => some do
+    let m ← IrVerif.Drive.Passes.getModel (← j.getObjVal? "model")
+    return obj [("sorted", toJson (IrVerif.PassFlags.sortedModel m))]
   | _ => none
 
 end IrVerif.Drive.PassInfra
